@@ -53,6 +53,11 @@ CurveFailing(ev) ==
         ELSE UNION {StepFailing(g, n, ev.steps[n], sts[n], sts[n + 1]) : n \in DOMAIN secs}
              \cup {<<n, "count", "vertex_count">> : n \in {m \in DOMAIN secs :
                       ev.steps[m].n # (IF m = 1 THEN 1 ELSE ev.steps[m - 1].n) + ev.steps[m].added}}
+             \* command strings: a history issued through Curve::commands, one instruction at a time,
+             \* is held to the same clauses as the direct calls above; every item must be reported as
+             \* processed and the whole history as one command array must give the same vertices
+             \cup (IF "cmd" \in DOMAIN g /\ g.cmd /\ ~(ev.cmd_ok /\ ev.cmd_same)
+                   THEN {<<0, "commands", "items_processed_or_single_array_differs">>} ELSE {})
 
 \* ---- shape primitives ----------------------------------------------------------
 D2(p) == <<2 * p[1], 2 * p[2]>>     \* logged coordinates are doubled (half-integers appear)
